@@ -167,6 +167,33 @@ def run_case(sh, s, d, case):
                 eff = TimeStamp(*_time.gmtime(pt)[:5] + (pt % 60,)).raw()      # the tid the pack time really corresponds to
                 packed_T = max(packed_T or eff, eff)
                 dr.features.add('pack')
+                # a transaction at or before the pack time cannot be undone any more (its records lost their predecessors): an
+                # undo by an id taken before the pack must be refused and change nothing
+                olds = [t.tid for t in dr.spec.txns if t.tid <= eff and t.status == 'p']      # (a pack that had nothing to free marks nothing)
+                if olds:
+                    import base64
+                    from ZODB.Connection import TransactionMetaData
+                    from ZODB.POSException import UndoError
+                    victim = rnd.choice(olds)
+                    dr.st._file.flush()
+                    with open(path, 'rb') as fh:
+                        pre_bytes = fh.read()
+                    tmeta = TransactionMetaData(b'', b'stale undo id')
+                    dr.st.tpc_begin(tmeta)
+                    sh.count('undos_of_packed_transactions_attempted')
+                    try:
+                        dr.st.undo(base64.encodebytes(victim).rstrip(), tmeta)
+                        dr.st.tpc_vote(tmeta)
+                        dr.st.tpc_finish(tmeta)
+                        sh.violation('c06:undo-of-a-transaction-at-or-before-the-pack-time-accepted', {'trace': dr.trace, 'tid': victim}, case)
+                        return None
+                    except (UndoError, KeyError):
+                        dr.st.tpc_abort(tmeta)
+                    dr.st._file.flush()
+                    with open(path, 'rb') as fh:
+                        if fh.read() != pre_bytes:
+                            sh.violation('c06:refused-undo-changed-the-data-file', {'trace': dr.trace, 'stale_id': True}, case)
+                            return None
                 continue
             if k == 'resolved' and packed_T is not None:
                 continue        # the base revision of a stale writer may have been packed away: a refusal is then legitimate
